@@ -7,11 +7,13 @@ package rt
 import (
 	"fmt"
 	"io"
+	"net"
 	"net/http"
 	"net/http/httptest"
 	"net/url"
 	"sort"
 	"strings"
+	"syscall"
 
 	"github.com/flamego/flamego"
 	"github.com/flamego/flamego/internal/route"
@@ -451,7 +453,11 @@ type Spy struct {
 	Codes []int    // every WriteHeader call
 	Body  []byte   // all body bytes
 	Log   []string // "WH <code>" / "W <n>" in order
+	// Gone: the client has gone away: every body write fails (nothing is taken)
+	Gone bool
 }
+
+var errGone = &net.OpError{Op: "write", Net: "tcp", Err: syscall.EPIPE}
 
 // NewSpy returns an empty spy.
 func NewSpy() *Spy { return &Spy{H: http.Header{}} }
@@ -462,6 +468,10 @@ func (s *Spy) WriteHeader(code int) {
 	s.Log = append(s.Log, fmt.Sprintf("WH %d", code))
 }
 func (s *Spy) Write(b []byte) (int, error) {
+	if s.Gone {
+		s.Log = append(s.Log, "W failed")
+		return 0, errGone
+	}
 	s.Body = append(s.Body, b...)
 	s.Log = append(s.Log, fmt.Sprintf("W %d", len(b)))
 	return len(b), nil
@@ -472,6 +482,9 @@ func (s *Spy) Write(b []byte) (int, error) {
 type StringSpy struct{ *Spy }
 
 func (s StringSpy) WriteString(str string) (int, error) {
+	if s.Spy.Gone {
+		return s.Spy.Write([]byte(str))
+	}
 	s.Spy.Body = append(s.Spy.Body, str...)
 	s.Spy.Log = append(s.Spy.Log, fmt.Sprintf("W %d", len(str)))
 	return len(str), nil
